@@ -236,6 +236,27 @@ where
     }
 }
 
+#[cfg(datacake_verif)]
+impl<S> KeyspaceGroup<S>
+where
+    S: Storage,
+{
+    /// Verification hook: looks a keyspace up without creating it.
+    pub fn verif_get(&self, name: &str) -> Option<ActorMailbox<KeyspaceActor<S>>> {
+        self.group.read().get(name).cloned()
+    }
+
+    /// Verification hook: the names of the keyspaces which currently have a state.
+    pub fn verif_keyspaces(&self) -> Vec<String> {
+        self.group.read().keys().map(|k| k.to_string()).collect()
+    }
+
+    /// Verification hook: a shared handle to the storage implementation.
+    pub fn verif_storage(&self) -> Arc<S> {
+        self.storage.clone()
+    }
+}
+
 async fn keyspace_purge_task<S>(handle: KeyspaceGroup<S>)
 where
     S: Storage,
